@@ -243,6 +243,30 @@ class Simulator(Computer, _mixins.CodeMixin):
         self._validate_instruction_modes(instructions, d)
         self._validate_instruction_order(instructions)
 
+    def _validate_measurements_with_shots_none(
+        self, instructions: List[Instruction], shots: Union[int, None]
+    ) -> None:
+        if shots is not None:
+            return
+
+        for instruction in instructions:
+            if isinstance(instruction, Measurement) and not isinstance(
+                instruction, self._measurement_classes_allowed_with_shots_none
+            ):
+                raise InvalidParameter(
+                    f"The measurement '{type(instruction).__name__}' instruction does "
+                    f"not support 'shots=None' using '{self.__class__.__name__}'."
+                )
+
+    def _validate_resolved_parameters(self, instructions: List[Instruction]) -> None:
+        if not self.config.validate:
+            return
+
+        for instruction in instructions:
+            # NOTE: Outcome-dependent parameters can only be validated during execution.
+            if instruction._is_resolved():
+                instruction._validate(self._connector)
+
     def _validate_initial_state(self, initial_state: State, d: int) -> None:
         if not isinstance(initial_state, self._state_class):
             raise InvalidState(
@@ -440,6 +464,10 @@ class Simulator(Computer, _mixins.CodeMixin):
         d = self._try_to_infer_d_from_instructions(instructions)
 
         self._validate_instructions(instructions, d)
+
+        # NOTE: Invalid requests are rejected before any evolution takes place.
+        self._validate_measurements_with_shots_none(instructions, shots)
+        self._validate_resolved_parameters(instructions)
 
         if initial_state is not None:
             self._validate_initial_state(initial_state, d)
